@@ -701,7 +701,9 @@ dictionary * iniparser_load(const char * ininame)
             break ;
 
             case LINE_SECTION:
-            errs = dictionary_set(dict, section, NULL);
+            /* a heading must not erase a value stored under the same name */
+            if (!iniparser_find_entry(dict, section))
+                errs = dictionary_set(dict, section, NULL);
             break ;
 
             case LINE_VALUE:
